@@ -261,6 +261,11 @@ package sample
 // extension round. The divisor is clipped from BELOW at 1e-7 (a zero or tiny temperature must not divide by ~0);
 // the infinity test that guards the finite-clamp looks at the logit itself, either sign
 //@   assert-at call math.IsInf #1 : !(temp < 0.00000010000000116860974) && arg1 == 0
+// added after seeded change C18-seed4 (scaling done in place before the guard): "a finite logit stays finite" is a test on
+// the ORIGINAL logit of the iteration. Cells not yet visited still hold their entry value; when the infinity test runs,
+// cell i has not been written yet and the value tested is the one in that cell (so: the original logit, not the quotient)
+//@   loop 1 invariant forall k int :: rangeindex < k && k < len(ts) ==> fsame(ts[k].value, old(ts[k].value))
+//@   assert-at call math.IsInf #1 : fsame(ts[i].value, old(ts[i].value)) && fsame(arg0, float64(ts[i].value))
 
 //@ func softmax
 //@   modifies ts[all]
